@@ -188,7 +188,7 @@ func (n *hNode) path() string {
 }
 
 var hDescs = []string{"", "one line", "50% of %s done, 100%d", "%", "first line\nsecond line", "with (parens) and $VAR", "a\n\nb", "  padded  ", "x\n  indented cont", "ends with colon:", "Options are nice"}
-var hEnvs = []string{"", "E1", "E1 E2", "  E1   E2  E3 ", " ", "E_SET", "E1,E2", "E1\tE2"} // names are separated by white space only
+var hEnvs = []string{"", "E1", "E1 E2", "  E1   E2  E3 ", " ", "E_SET", "E1,E2", "E1\tE2", "e_low http_proxy", "Mixed_Case"} // names are separated by white space only
 
 // genHelpNode draws declarations for one command and records the rows its help must show
 func genHelpNode(r *rand.Rand, name string, depth int, parent *hNode, version bool) *hNode {
